@@ -110,44 +110,59 @@ noncomputable def batchSFp (X Y Z T : Fp) : Fp :=
     (X * (Y + Y) * (Y ^ 2 + X ^ 2)) ((Z ^ 2 + T ^ 2 * d) * (Z ^ 2 - T ^ 2 * d))
     ((X * (Y + Y) * (Y ^ 2 + X ^ 2) * ((Z ^ 2 + T ^ 2 * d) * (Z ^ 2 - T ^ 2 * d)))⁻¹)
 
+theorem mem7 {a b c e f g h : Nat} (ha : a < P) (hb : b < P) (hc : c < P) (he : e < P) (hf : f < P)
+    (hg : g < P) (hh : h < P) : ∀ n ∈ [a, b, c, e, f, g, h], n < P := by
+  intro n hn
+  simp only [List.mem_cons, List.not_mem_nil, or_false] at hn
+  rcases hn with h | h | h | h | h | h | h <;> rw [h] <;> assumption
+
+/-- the closure run by the model on the values of a state and a canonical `inv` -/
+theorem closure_run (e f g h eg fh : Fp) (inv : Nat) (hinv : inv < P) :
+    AlgRistretto.batch_compress_closure.run natOps [e.val, f.val, g.val, h.val, eg.val, fh.val, inv] =
+      [(batS e f g h eg fh (inv : Fp)).val] := by
+  rw [run_nat_eq _ _ (mem7 (ZMod.val_lt e) (ZMod.val_lt f) (ZMod.val_lt g) (ZMod.val_lt h) (ZMod.val_lt eg)
+    (ZMod.val_lt fh) hinv)]
+  simp only [List.map_cons, List.map_nil, ZMod.natCast_zmod_val]
+  rw [AlgRistretto.batch_compress_closure_sh_ok, batch_compress_closure_sh_eq]
+  simp only [List.map_cons, List.map_nil]
+
 theorem batchClosure_eq {p : RistrettoDalek.RPt} (hp : CanonR p) :
     RistrettoDalek.batchClosure (RistrettoDalek.batchState p)
         (finv (fmul ((RistrettoDalek.batchState p).getD 4 0) ((RistrettoDalek.batchState p).getD 5 0))) =
       feToBytes (batchSFp (p.1 : Fp) (p.2.1 : Fp) (p.2.2.1 : Fp) (p.2.2.2 : Fp)).val := by
   rw [batchState_eq hp, batch_state_from_sh_eq]
-  unfold RistrettoDalek.batchClosure
+  unfold RistrettoDalek.batchClosure batchSFp
   simp only [List.map_cons, List.map_nil, List.getD_cons_zero, List.getD_cons_succ, List.cons_append,
     List.nil_append]
-  rw [run_nat_eq _ _ (by
-    intro n hn
-    simp only [List.mem_cons, List.not_mem_nil, or_false] at hn
-    rcases hn with h | h | h | h | h | h | h <;> rw [h]
-    all_goals first | exact ZMod.val_lt _ | exact Bridge.finv_lt _)]
-  simp only [List.map_cons, List.map_nil, ZMod.natCast_zmod_val, Bridge.cast_finv, Bridge.cast_fmul]
-  rw [AlgRistretto.batch_compress_closure_sh_ok, batch_compress_closure_sh_eq]
-  rfl
+  rw [closure_run _ _ _ _ _ _ _ (Bridge.finv_lt _)]
+  simp only [List.getD_cons_zero, Bridge.cast_finv, Bridge.cast_fmul, ZMod.natCast_zmod_val]
 
-theorem zipWith_map_self {α β γ δ : Type} (f : β → γ → δ) (g : α → β) (h : α → γ) (l : List α) :
-    List.zipWith f (l.map g) (l.map h) = l.map (fun a => f (g a) (h a)) := by
-  induction l with
+theorem zip_closure (ps : List RistrettoDalek.RPt) :
+    List.zipWith RistrettoDalek.batchClosure (ps.map RistrettoDalek.batchState)
+        (((ps.map RistrettoDalek.batchState).map
+          (fun st : List Nat => fmul (st.getD 4 0) (st.getD 5 0))).map finv) =
+      ps.map (fun p => RistrettoDalek.batchClosure (RistrettoDalek.batchState p)
+        (finv (fmul ((RistrettoDalek.batchState p).getD 4 0) ((RistrettoDalek.batchState p).getD 5 0)))) := by
+  induction ps with
   | nil => rfl
-  | cons a l ih => simp [ih]
+  | cons p ps ih =>
+    rw [List.map_cons, List.map_cons, List.map_cons, List.map_cons, List.zipWith_cons_cons, ih]
 
 /-- the model of `double_and_compress_batch`, point by point -/
 theorem doubleAndCompressBatch_eq (ps : List RistrettoDalek.RPt) (hps : ∀ p ∈ ps, CanonR p) :
     RistrettoDalek.doubleAndCompressBatch ps =
       ps.map (fun p => feToBytes (batchSFp (p.1 : Fp) (p.2.1 : Fp) (p.2.2.1 : Fp) (p.2.2.2 : Fp)).val) := by
-  unfold RistrettoDalek.doubleAndCompressBatch
-  dsimp only
-  rw [batchInvert_eq _ (by
+  have hlt : ∀ x ∈ List.map (fun st : List Nat => fmul (st.getD 4 0) (st.getD 5 0))
+      (List.map RistrettoDalek.batchState ps), x < P := by
     intro x hx
-    simp only [List.mem_map] at hx
-    obtain ⟨st, -, rfl⟩ := hx
-    exact Bridge.fmul_lt _ _)]
-  rw [List.map_map, List.map_map, zipWith_map_self]
-  apply List.map_congr_left
-  intro p hp
-  exact batchClosure_eq (hps p hp)
+    obtain ⟨st, -, hst⟩ := List.mem_map.1 hx
+    rw [← hst]; exact Bridge.fmul_lt _ _
+  have h1 : RistrettoDalek.doubleAndCompressBatch ps =
+      List.zipWith RistrettoDalek.batchClosure (ps.map RistrettoDalek.batchState)
+        (RistrettoDalek.batchInvert ((ps.map RistrettoDalek.batchState).map
+          (fun st : List Nat => fmul (st.getD 4 0) (st.getD 5 0)))) := rfl
+  rw [h1, batchInvert_eq _ hlt, zip_closure]
+  exact List.map_congr_left (fun p hp => batchClosure_eq (hps p hp))
 
 /-- for a valid point, the closure's `s` is the `s` of `Spec.Ristretto.encode` of the doubled affine point -/
 theorem batchSFp_eq {p : RistrettoDalek.RPt} {R : Ed} (hR : ERep (toEPt p) R) :
@@ -165,5 +180,28 @@ theorem batchSFp_eq {p : RistrettoDalek.RPt} {R : Ed} (hR : ERep (toEPt p) R) :
   apply val_eq_of_cast (sEncS_lt ..)
   rw [cast_sEncS, Bridge.cast_fmul, Nat.cast_one]
   exact key.symm
+
+/-! ## Coset invariance of `Spec.Ristretto.encodeExt` on naturals -/
+
+/-- ENCODE on (arbitrary natural) extended coordinates denoting `Q` (in the even subgroup) and `Q + T4`, `T4 ∈ E[4]` -/
+theorem encodeExt_coset {x y z t x' y' z' t' : Nat} {Q T4 : Ed}
+    (h : RepExt Q (x : Fp) (y : Fp) (z : Fp) (t : Fp))
+    (h' : RepExt (Q + T4) (x' : Fp) (y' : Fp) (z' : Fp) (t' : Fp))
+    (hT : 4 • T4 = 0) (heven : ∃ R : Ed, Q = 2 • R) :
+    Ristretto.encodeExt x' y' z' t' = Ristretto.encodeExt x y z t := by
+  obtain ⟨R, rfl⟩ := heven
+  rw [encodeExt_unfold, encodeExt_unfold]
+  have : sEncS x' y' z' t' = sEncS x y z t := by
+    apply Bridge.eq_of_cast_eq (sEncS_lt ..) (sEncS_lt ..)
+    rw [cast_sEncS, cast_sEncS]
+    exact encS_coset ((isE4_iff T4).2 hT) rfl (isSquare_encW_even R) h h'
+  rw [this]
+
+theorem repExt_of_rep {p : Pt} {Q : Ed} (h : Rep p Q) :
+    RepExt Q (p.x : Fp) (p.y : Fp) ((1 : Nat) : Fp) ((fmul p.x p.y : Nat) : Fp) := by
+  have := repExt_affine Q
+  rwa [← h.1, ← h.2, ← Bridge.cast_fmul, ← Nat.cast_one] at this
+
+theorem encode_def (p : Pt) : Ristretto.encode p = Ristretto.encodeExt p.x p.y 1 (fmul p.x p.y) := rfl
 
 end Dalek.Proofs.Ris
